@@ -208,6 +208,9 @@ def facts : Facts := {
   allocSitesSized := 6
   typedAllocOK := true
   typedAllocSites := 6
+  decoderSkeleton := "ba10394e29aee3f971933331"
+  encoderSkeleton := "5cbdaefa998ed87261c39697"
+  resolverSkeleton := "81ddf5e4a6fd247a7ee90fe2"
   topLevelUsesLimit := true
   createLocksRechecksBuildsPublishes := true
   getIsReadOnly := true
@@ -222,5 +225,838 @@ def facts : Facts := {
   hotPathHeapSiteList := []
   escapeAnalysisRan := true
 }
+
+/- control-structure skeletons behind the three fingerprints (for diffing; not read by Lean):
+-- decoder / tDecoder.Decode
+--   if maxdepth == 0 => return
+--   return 0, errDepthLimitExceeded
+--   if len(sd.requiredFieldIDs) > 0
+--   call len
+--   call bitsetPool.Get
+--   defer
+--   call bitsetPool.Put
+--   range sd.requiredFieldIDs
+--   call bs.unset
+--   if sd.hasUnknownFields
+--   call unknownFieldsPool.Get
+--   defer
+--   call unknownFieldsPool.Put
+--   call ufs.Reset
+--   for 
+--   if i >= len(b) => return
+--   call len
+--   return i, io.ErrShortBuffer
+--   call ttype
+--   if tp == tSTOP => break
+--   if len(b)-i < 2 => return
+--   call len
+--   return i, io.ErrShortBuffer
+--   call binary.BigEndian.Uint16
+--   call sd.GetField
+--   if f == nil || f.Type.WT != tp => continue
+--   call skipUnknown
+--   if err != nil => return
+--   return i, fmt.Errorf("skip unknown field %d of struct %s err: %w", fid, sd.rt.String(), err)
+--   call fmt.Errorf
+--   call sd.rt.String
+--   if ufs != nil
+--   call ufs.Add
+--   call unsafe.Add
+--   call d.mallocIfPointer
+--   if t.FixedSize > 0
+--   if len(b)-i < t.FixedSize => return
+--   call len
+--   return i, io.ErrShortBuffer
+--   call decodeFixedSizeTypes
+--   if f.NoCopy
+--   call decodeStringNoCopy
+--   call d.decodeType
+--   if err != nil => return
+--   return i, fmt.Errorf("decode field %d of struct %s err: %w", fid, sd.rt.String(), err)
+--   call fmt.Errorf
+--   call sd.rt.String
+--   if bs != nil
+--   call bs.set
+--   range sd.requiredFieldIDs
+--   if !bs.test(fid) => return
+--   call bs.test
+--   return i, newRequiredFieldNotSetException(lookupFieldName(sd.rt, sd.GetField(fid).Offset))
+--   call newRequiredFieldNotSetException
+--   call lookupFieldName
+--   call sd.GetField
+--   if ufs != nil && ufs.Size() > 0
+--   call ufs.Size
+--   call (*[]byte)
+--   call unsafe.Add
+--   call ufs.Copy
+--   return i, nil
+-- decoder / tDecoder.decodeType
+--   if maxdepth == 0 => return
+--   return 0, errDepthLimitExceeded
+--   if t.FixedSize > 0 => return
+--   if len(b) < t.FixedSize => return
+--   call len
+--   return 0, io.ErrShortBuffer
+--   return decodeFixedSizeTypes(t.T, b, p), nil
+--   call decodeFixedSizeTypes
+--   switch t.T
+--   case tSTRING
+--   if len(b) < strHeaderLen => return
+--   call len
+--   return 0, io.ErrShortBuffer
+--   call int
+--   call int32
+--   call binary.BigEndian.Uint32
+--   if l < 0 => return
+--   return 0, errNegativeSize
+--   if l == 0 => return
+--   if isBinaryType(t)
+--   call isBinaryType
+--   call (*[]byte)
+--   call (*string)
+--   return i, nil
+--   if l > len(b)-i => return
+--   call len
+--   return i, newSizeExceedsBufferException(l, len(b)-i)
+--   call newSizeExceedsBufferException
+--   call len
+--   call d.Malloc
+--   if isBinaryType(t)
+--   call isBinaryType
+--   call (*[]byte)
+--   call unsafe.Slice
+--   call (*byte)
+--   call (*string)
+--   call unsafe.String
+--   call (*byte)
+--   call copy
+--   call unsafe.Slice
+--   call (*byte)
+--   return i, nil
+--   case tMAP
+--   if len(b) < mapHeaderLen => return
+--   call len
+--   return 0, io.ErrShortBuffer
+--   call ttype
+--   call ttype
+--   call int
+--   call int32
+--   call binary.BigEndian.Uint32
+--   if l < 0 => return
+--   return 0, errNegativeSize
+--   if t0 != kt.WT || t1 != vt.WT => return
+--   return 0, newTypeMismatchKV(kt.WT, vt.WT, t0, t1)
+--   call newTypeMismatchKV
+--   if remain := len(b) - mapHeaderLen; l > remain/(int(minWireSize[kt.WT])+int(minWireSize[vt.WT])) => return
+--   call len
+--   call int
+--   call int
+--   return mapHeaderLen, newSizeExceedsBufferException(l, remain)
+--   call newSizeExceedsBufferException
+--   call t.MapTmpVarsPool.Get
+--   call reflect.MakeMapWithSize
+--   if kt.IsPointer && l > 0
+--   call d.Malloc
+--   if vt.IsPointer && l > 0
+--   call d.Malloc
+--   for j < l
+--   if kt.IsPointer
+--   if j != 0
+--   call unsafe.Add
+--   call (*unsafe.Pointer)
+--   if kt.FixedSize > 0
+--   if len(b)-i < kt.FixedSize => break
+--   call len
+--   call decodeFixedSizeTypes
+--   if n, err = d.decodeType(kt, b[i:], tmp, maxdepth-1); err != nil => break
+--   call d.decodeType
+--   if vt.T == tSTRUCT && !vt.IsPointer
+--   call v.SetZero
+--   if vt.IsPointer
+--   if j != 0
+--   call unsafe.Add
+--   call (*unsafe.Pointer)
+--   if vt.FixedSize > 0
+--   if len(b)-i < vt.FixedSize => break
+--   call len
+--   call decodeFixedSizeTypes
+--   if n, err = d.decodeType(vt, b[i:], tmp, maxdepth-1); err != nil => break
+--   call d.decodeType
+--   call m.SetMapIndex
+--   if err == nil
+--   call (*unsafe.Pointer)
+--   call m.UnsafePointer
+--   call t.MapTmpVarsPool.Put
+--   return i, err
+--   case tLIST,tSET
+--   if len(b) < listHeaderLen => return
+--   call len
+--   return 0, io.ErrShortBuffer
+--   call ttype
+--   call int
+--   call int32
+--   call binary.BigEndian.Uint32
+--   if l < 0 => return
+--   return 0, errNegativeSize
+--   if et.WT != tp => return
+--   return 0, newTypeMismatch(et.WT, tp)
+--   call newTypeMismatch
+--   call (*sliceHeader)
+--   if l <= 0 => return
+--   call h.Zero
+--   return i, nil
+--   if remain := len(b) - i; l > remain/int(minWireSize[et.WT]) => return
+--   call len
+--   call int
+--   return i, newSizeExceedsBufferException(l, remain)
+--   call newSizeExceedsBufferException
+--   call d.Malloc
+--   if et.IsPointer
+--   call d.Malloc
+--   for j < l
+--   if j != 0
+--   call unsafe.Add
+--   if et.IsPointer
+--   if j != 0
+--   call unsafe.Add
+--   call (*unsafe.Pointer)
+--   if et.FixedSize > 0
+--   call decodeFixedSizeTypes
+--   call d.decodeType
+--   if err != nil => return
+--   return i, err
+--   return i, nil
+--   case tSTRUCT
+--   if t.Sd.hasInitFunc
+--   call updateIface
+--   call unsafe.Pointer
+--   call f.InitDefault
+--   return d.Decode(b, p, t.Sd, maxdepth-1)
+--   call d.Decode
+--   return 0, fmt.Errorf("unknown type: %d", t.T)
+--   call fmt.Errorf
+-- decoder / decodeStringNoCopy
+--   if len(b) < strHeaderLen => return
+--   call len
+--   return 0, io.ErrShortBuffer
+--   call int
+--   call int32
+--   call binary.BigEndian.Uint32
+--   if l < 0 => return
+--   return 
+--   if l == 0 => return
+--   if isBinaryType(t)
+--   call isBinaryType
+--   call (*[]byte)
+--   call (*string)
+--   return 
+--   if l > len(b)-i => return
+--   call len
+--   return i, newSizeExceedsBufferException(l, len(b)-i)
+--   call newSizeExceedsBufferException
+--   call len
+--   if isBinaryType(t)
+--   call isBinaryType
+--   call (*[]byte)
+--   call unsafe.Slice
+--   call (*string)
+--   call unsafe.String
+--   return 
+-- decoder / decodeFixedSizeTypes
+--   switch t
+--   case tBOOL,tBYTE
+--   call (*byte)
+--   return 1
+--   case tDOUBLE,tI64
+--   call (*uint64)
+--   call binary.BigEndian.Uint64
+--   return 8
+--   case tI16
+--   call (*int16)
+--   call int16
+--   call binary.BigEndian.Uint16
+--   return 2
+--   case tI32
+--   call (*int32)
+--   call int32
+--   call binary.BigEndian.Uint32
+--   return 4
+--   case tENUM
+--   call (*int64)
+--   call int64
+--   call int32
+--   call binary.BigEndian.Uint32
+--   return 4
+--   case 
+--   call panic
+-- decoder / skipUnknown
+--   defer
+--   call func() { if r := recover(); r != nil { n, err = 0, thrift.NewProtocolException(thrift.INVALID_DATA, fmt.Sprintf("unknown data type: %v", r)) } }
+--   funclit
+--   if r := recover(); r != nil
+--   call recover
+--   call thrift.NewProtocolException
+--   call fmt.Sprintf
+--   return thrift.Binary.Skip(b, thrift.TType(tp))
+--   call thrift.Binary.Skip
+--   call thrift.TType
+-- decoder / tDecoder.mallocIfPointer
+--   if t.IsPointer => return
+--   call d.Malloc
+--   call (*unsafe.Pointer)
+--   return 
+--   return p
+-- decoder / tDecoder.Malloc
+--   if n > defaultDecoderMemSize/8 || abiType != 0 => return
+--   return mallocgc(uintptr(n), abiType, abiType != 0)
+--   call mallocgc
+--   call uintptr
+--   return d.s.Malloc(n, align)
+--   call d.s.Malloc
+-- encoder / appendStruct
+--   if base == nil => return
+--   return append(b, byte(tSTOP)), nil
+--   call append
+--   call byte
+--   range sd.fields
+--   call unsafe.Add
+--   if f.CanSkipEncodeIfNil && *(*unsafe.Pointer)(p) == nil => continue
+--   call (*unsafe.Pointer)
+--   if f.CanSkipIfDefault && t.Equal(f.Default, p) => continue
+--   call t.Equal
+--   call append
+--   call byte
+--   call byte
+--   call byte
+--   if t.IsPointer
+--   call (*unsafe.Pointer)
+--   if t.SimpleType
+--   switch t.T
+--   case tBYTE,tBOOL
+--   call append
+--   call (*byte)
+--   case tI16
+--   call appendUint16
+--   call (*uint16)
+--   case tI32
+--   call appendUint32
+--   call (*uint32)
+--   case tENUM
+--   call appendUint32
+--   call uint32
+--   call (*int64)
+--   case tI64,tDOUBLE
+--   call appendUint64
+--   call (*uint64)
+--   case tSTRING
+--   call (*string)
+--   call appendUint32
+--   call uint32
+--   call len
+--   call append
+--   call t.AppendFunc
+--   if err != nil => return
+--   return b, withFieldErr(err, sd, f)
+--   call withFieldErr
+--   if sd.hasUnknownFields
+--   call (*[]byte)
+--   call unsafe.Add
+--   if len(xb) > 0
+--   call len
+--   call append
+--   return append(b, byte(tSTOP)), nil
+--   call append
+--   call byte
+-- encoder / appendAny
+--   if t.IsPointer
+--   call (*unsafe.Pointer)
+--   if t.SimpleType => return
+--   switch t.T
+--   case tBYTE,tBOOL
+--   call append
+--   call (*byte)
+--   case tI16
+--   call appendUint16
+--   call (*uint16)
+--   case tI32
+--   call appendUint32
+--   call (*uint32)
+--   case tENUM
+--   call appendUint32
+--   call uint32
+--   call (*int64)
+--   case tI64,tDOUBLE
+--   call appendUint64
+--   call (*uint64)
+--   case tSTRING
+--   call (*string)
+--   call appendUint32
+--   call uint32
+--   call len
+--   call append
+--   return b, nil
+--   return t.AppendFunc(t, b, p)
+--   call t.AppendFunc
+-- encoder / tType.EncodedSize
+--   if t.IsPointer
+--   call (*unsafe.Pointer)
+--   if base == nil => return
+--   return 1, nil
+--   range sd.varLenFields
+--   call unsafe.Add
+--   if f.CanSkipEncodeIfNil && *(*unsafe.Pointer)(p) == nil => continue
+--   call (*unsafe.Pointer)
+--   if f.CanSkipIfDefault && t.Equal(f.Default, p) => continue
+--   call t.Equal
+--   if n := t.FixedSize; n > 0 => continue
+--   call int
+--   if t.T == tSTRING => continue
+--   if t.IsPointer
+--   call (*unsafe.Pointer)
+--   call encodedStringSize
+--   call t.EncodedSizeFunc
+--   if err != nil => return
+--   return ret, err
+--   if sd.hasUnknownFields
+--   call len
+--   call (*[]byte)
+--   call unsafe.Add
+--   return ret, nil
+-- encoder / tType.encodedMapSize
+--   if *(*unsafe.Pointer)(p) == nil => return
+--   call (*unsafe.Pointer)
+--   return mapHeaderLen, nil
+--   call maplen
+--   call (*unsafe.Pointer)
+--   if l == 0 => return
+--   return mapHeaderLen, nil
+--   if kt.FixedSize > 0
+--   if vt.FixedSize > 0
+--   if doneK && doneV => return
+--   return ret, nil
+--   call newMapIter
+--   call rvWithPtr
+--   for kp != nil
+--   call it.Next
+--   call it.Next
+--   if !doneK
+--   if kt.T == tSTRING
+--   call encodedStringSize
+--   call kt.EncodedSize
+--   if err != nil => return
+--   return ret, err
+--   if doneV => continue
+--   if vt.T == tSTRING
+--   call encodedStringSize
+--   call vt.EncodedSizeFunc
+--   if err != nil => return
+--   return ret, err
+--   return ret, nil
+-- encoder / tType.encodedListSize
+--   if *(*unsafe.Pointer)(p) == nil => return
+--   call (*unsafe.Pointer)
+--   return listHeaderLen, nil
+--   call (*sliceHeader)
+--   if vt.FixedSize > 0 => return
+--   return listHeaderLen + (h.Len * vt.FixedSize), nil
+--   if h.Len == 0 => return
+--   return ret, nil
+--   for i < h.Len
+--   if i != 0
+--   call unsafe.Add
+--   if vt.T == tSTRING
+--   call encodedStringSize
+--   call vt.EncodedSizeFunc
+--   if err != nil => return
+--   return ret, err
+--   return ret, nil
+-- encoder / appendListHeader
+--   if *(*unsafe.Pointer)(p) == nil => return
+--   call (*unsafe.Pointer)
+--   return append(b, byte(t.WT), 0, 0, 0, 0), 0, nil
+--   call append
+--   call byte
+--   call (*sliceHeader)
+--   call uint32
+--   return append(b, byte(t.WT), byte(n>>24), byte(n>>16), byte(n>>8), byte(n)), n, h.Data
+--   call append
+--   call byte
+--   call byte
+--   call byte
+--   call byte
+--   call byte
+-- encoder / appendMapHeader
+--   if *(*unsafe.Pointer)(p) != nil
+--   call (*unsafe.Pointer)
+--   call uint32
+--   call maplen
+--   call (*unsafe.Pointer)
+--   return append(b, byte(t.K.WT), byte(t.V.WT), byte(n>>24), byte(n>>16), byte(n>>8), byte(n)), n
+--   call append
+--   call byte
+--   call byte
+--   call byte
+--   call byte
+--   call byte
+--   call byte
+-- encoder / Append
+--   call panicIfHackErr
+--   call reflect.ValueOf
+--   call getStructDesc
+--   if sd == nil
+--   call createStructDesc
+--   if err != nil => return
+--   return b, err
+--   if rv.Kind() == reflect.Struct
+--   call rv.Kind
+--   call sd.rvPool.Get
+--   defer
+--   call sd.rvPool.Put
+--   call (*prv).Elem().Set
+--   call (*prv).Elem
+--   call (*rvtype)
+--   call unsafe.Pointer
+--   call rvPtr
+--   return appendStruct(&tType{Sd: sd}, b, p)
+--   call appendStruct
+-- encoder / EncodedSize
+--   call panicIfHackErr
+--   call reflect.ValueOf
+--   call getStructDesc
+--   if sd == nil
+--   call createStructDesc
+--   if err != nil => panic
+--   call panic
+--   call fmt.Sprintf
+--   if rv.Kind() == reflect.Struct
+--   call rv.Kind
+--   call sd.rvPool.Get
+--   defer
+--   call sd.rvPool.Put
+--   call (*prv).Elem().Set
+--   call (*prv).Elem
+--   call (*rvtype)
+--   call unsafe.Pointer
+--   call rvPtr
+--   call t.EncodedSize
+--   if err != nil => panic
+--   call panic
+--   call fmt.Sprintf
+--   return n
+-- resolver / DoResolveFields
+--   call reflect.New
+--   call make
+--   call vt.NumField
+--   if def, ok := val.Interface().(DefaultInitializer); ok
+--   call val.Interface
+--   call val.Elem
+--   call def.InitDefault
+--   for i < vt.NumField()
+--   call vt.NumField
+--   if sf = vt.Field(i); sf.Anonymous || sf.PkgPath != "" => continue
+--   call vt.Field
+--   if ft, ok = lookupStructTag(sf.Tag); !ok => continue
+--   call lookupStructTag
+--   if len(ft) == 0 => return
+--   call len
+--   return nil, fmt.Errorf("invalid tag for field %s.%s", vt, sf.Name)
+--   call fmt.Errorf
+--   if id, err = strconv.ParseUint(ft[0], 10, 16); err != nil => return
+--   call strconv.ParseUint
+--   return nil, fmt.Errorf("invalid field number for field %s.%s: %w", vt, sf.Name, err)
+--   call fmt.Errorf
+--   if _, ok = ids[id]; !ok
+--   return nil, fmt.Errorf("duplicated field ID %d for field %s.%s", id, vt, sf.Name)
+--   call fmt.Errorf
+--   if len(ft) == 0
+--   call len
+--   switch tv
+--   case "default"
+--   case "required"
+--   case "optional"
+--   case 
+--   return nil, fmt.Errorf("invalid requiredness for field %s.%s", vt, sf.Name)
+--   call fmt.Errorf
+--   if len(ft) == 0
+--   call len
+--   if pt, err = ParseType(sf.Type, tv); err != nil => return
+--   call ParseType
+--   return nil, fmt.Errorf("cannot parse type descriptor: %w", err)
+--   call fmt.Errorf
+--   if rx != Optional && pt.T == T_pointer && pt.V.T != T_struct => return
+--   return nil, fmt.Errorf("only optional fields or structs can be pointers, not %s: %s.%s", sf.Type, vt, sf.Name)
+--   call fmt.Errorf
+--   range ft
+--   switch opt
+--   case 
+--   return nil, fmt.Errorf("invalid option: %s", opt)
+--   call fmt.Errorf
+--   case "nocopy"
+--   if pt.Tag() != T_string => return
+--   call pt.Tag
+--   return nil, fmt.Errorf(`"nocopy" is only applicable to "string" and "binary" types, not %s`, pt)
+--   call fmt.Errorf
+--   if fv&NoCopy != 0 => return
+--   return nil, fmt.Errorf(`duplicated option "nocopy" for field %s.%s`, vt, sf.Name)
+--   call fmt.Errorf
+--   if mem.IsValid()
+--   call mem.IsValid
+--   call mem.FieldByIndex
+--   call append
+--   call int
+--   call uint16
+--   call sort.Slice
+--   funclit
+--   return ret[i].ID < ret[j].ID
+--   return ret, nil
+-- resolver / lookupStructTag
+--   if s, ok := tag.Lookup("frugal"); ok => return
+--   call tag.Lookup
+--   return trimSpaces(strings.Split(s, ",")), true
+--   call trimSpaces
+--   call strings.Split
+--   if s, ok := tag.Lookup("thrift"); ok
+--   call tag.Lookup
+--   if ss := strings.Split(s, ","); len(ss) > 0 => return
+--   call strings.Split
+--   call len
+--   return trimSpaces(ss[1:]), true
+--   call trimSpaces
+--   return nil, false
+-- resolver / trimSpaces
+--   range ss
+--   call strings.TrimSpace
+--   return ss
+-- resolver / doParseType
+--   if ret = newType(); vt.Kind() == reflect.Ptr => return
+--   call newType
+--   call vt.Kind
+--   if !allowPtrs => return
+--   return nil, EType(vt, "nested pointer is not allowed")
+--   call EType
+--   if ret.V, err = doParseType(vt.Elem(), def, i, false); err != nil => return
+--   call doParseType
+--   call vt.Elem
+--   return nil, err
+--   switch ret.V.T
+--   case T_map,T_set,T_list
+--   return nil, EType(vt, "pointer to map, set or list is not allowed")
+--   call EType
+--   return ret, nil
+--   switch vt.Kind()
+--   call vt.Kind
+--   case reflect.Bool
+--   case reflect.Int
+--   call T_int
+--   case reflect.Int8
+--   case reflect.Int16
+--   case reflect.Int32
+--   case reflect.Int64
+--   case reflect.Uint
+--   return nil, EUseOther(vt, "int")
+--   call EUseOther
+--   case reflect.Uint8
+--   return nil, EUseOther(vt, "int8")
+--   call EUseOther
+--   case reflect.Uint16
+--   return nil, EUseOther(vt, "int16")
+--   call EUseOther
+--   case reflect.Uint32
+--   return nil, EUseOther(vt, "int32")
+--   call EUseOther
+--   case reflect.Uint64
+--   return nil, EUseOther(vt, "int64")
+--   call EUseOther
+--   case reflect.Float32
+--   return nil, EUseOther(vt, "float64")
+--   call EUseOther
+--   case reflect.Float64
+--   case reflect.Array
+--   return nil, EUseOther(vt, "[]"+vt.Elem().String())
+--   call EUseOther
+--   call vt.Elem().String
+--   call vt.Elem
+--   case reflect.Map
+--   case reflect.Slice
+--   case reflect.String
+--   case reflect.Struct
+--   case 
+--   return nil, EType(vt, "unsupported type")
+--   call EType
+--   if tag == 0
+--   if et := vt.Elem(); et == bytetype
+--   call vt.Elem
+--   if def == "" => return
+--   return nil, ESetList(*i, def, et)
+--   call ESetList
+--   return doParseSlice(vt, et, def, i, ret)
+--   call doParseSlice
+--   if def != ""
+--   if tv, et := readToken(def, i, false); et != nil => return
+--   call readToken
+--   return nil, et
+--   if !strings.Contains(keywordTab[tag], tv)
+--   call strings.Contains
+--   if !isident0(tv[0]) => return
+--   call isident0
+--   return nil, mkMistyped(*i-len(tv), def, tv, tag, vt)
+--   call mkMistyped
+--   call len
+--   if ok, ex := doMatchStruct(vt, def, i, &tv); ex != nil => return
+--   call doMatchStruct
+--   return nil, ex
+--   if !ok => return
+--   return nil, mkMistyped(*i-len(tv), def, tv, tag, vt)
+--   call mkMistyped
+--   call len
+--   if tag == T_i64 && vt != i64type
+--   if tag != T_map => return
+--   return ret, nil
+--   if def != ""
+--   if tk, et := readToken(def, i, false); et != nil => return
+--   call readToken
+--   return nil, et
+--   if tk != "<" => return
+--   return nil, ESyntax(*i-len(tk), def, "'<' expected")
+--   call ESyntax
+--   call len
+--   if ret.K, err = doParseType(vt.Key(), def, i, true); err != nil => return
+--   call doParseType
+--   call vt.Key
+--   return nil, err
+--   if !ret.K.IsKeyType() => return
+--   call ret.K.IsKeyType
+--   return nil, EType(ret.K.S, "not a valid map key type")
+--   call EType
+--   if def != ""
+--   if tk, et := readToken(def, i, false); et != nil => return
+--   call readToken
+--   return nil, et
+--   if tk != ":" => return
+--   return nil, ESyntax(*i-len(tk), def, "':' expected")
+--   call ESyntax
+--   call len
+--   if ret.V, err = doParseType(vt.Elem(), def, i, true); err != nil => return
+--   call doParseType
+--   call vt.Elem
+--   return nil, err
+--   if def != ""
+--   if tk, et := readToken(def, i, false); et != nil => return
+--   call readToken
+--   return nil, et
+--   if tk != ">" => return
+--   return nil, ESyntax(*i-len(tk), def, "'>' expected")
+--   call ESyntax
+--   call len
+--   if !ret.V.IsValueType() => return
+--   call ret.V.IsValueType
+--   return nil, EType(ret.V.S, "non-struct pointers are not valid map value types")
+--   call EType
+--   return ret, nil
+-- resolver / doParseSlice
+--   if tok, err = readToken(def, i, false); err != nil => return
+--   call readToken
+--   return nil, err
+--   switch tok
+--   case "set"
+--   case "list"
+--   case 
+--   return nil, ESyntax(*i-len(tok), def, `"set" or "list" expected`)
+--   call ESyntax
+--   call len
+--   if tok, err = readToken(def, i, false); err != nil => return
+--   call readToken
+--   return nil, err
+--   if tok != "<" => return
+--   return nil, ESyntax(*i-len(tok), def, "'<' expected")
+--   call ESyntax
+--   call len
+--   if rt.V, err = doParseType(et, def, i, true); err != nil => return
+--   call doParseType
+--   return nil, err
+--   if tok, err = readToken(def, i, false); err != nil => return
+--   call readToken
+--   return nil, err
+--   if tok != ">" => return
+--   return nil, ESyntax(*i-len(tok), def, "'>' expected")
+--   call ESyntax
+--   call len
+--   if !rt.V.IsValueType() => return
+--   call rt.V.IsValueType
+--   return nil, EType(rt.V.S, "non-struct pointers are not valid list/set elements")
+--   call EType
+--   return rt, nil
+-- resolver / doMatchStruct
+--   call vt.Name
+--   if tok, err = readToken(def, &sp, true); err != nil => return
+--   call readToken
+--   return false, err
+--   if tn == "" && vt.Kind() == reflect.Struct => return
+--   call vt.Kind
+--   return true, nil
+--   if tok == "" || tok == ":" || tok == ">" => return
+--   return tn == *tv, nil
+--   if tok != "." => return
+--   return false, ESyntax(sp, def, "'.' or '>' expected")
+--   call ESyntax
+--   if *tv, err = readToken(def, &sp, false); err != nil => return
+--   call readToken
+--   return false, err
+--   if !isident0((*tv)[0]) => return
+--   call isident0
+--   return false, ESyntax(sp, def, "struct name expected")
+--   call ESyntax
+--   return tn == *tv, nil
+-- resolver / readToken
+--   call len
+--   for p < n && unicode.IsSpace(rune(src[p]))
+--   call unicode.IsSpace
+--   call rune
+--   if p == n
+--   if eofok => return
+--   return "", nil
+--   return "", ESyntax(p, src, "unexpected EOF")
+--   call ESyntax
+--   if isident0(src[q])
+--   call isident0
+--   for p < n && isident(src[p])
+--   call isident
+--   return src[q:p], nil
+-- resolver / newStructDesc
+--   if t.Kind() == reflect.Ptr
+--   call t.Kind
+--   call t.Elem
+--   if t.Kind() != reflect.Struct => return
+--   call t.Kind
+--   return nil, errType
+--   call defs.DoResolveFields
+--   if err != nil => return
+--   return nil, err
+--   funclit
+--   call reflect.New
+--   return &rv
+--   call d.fromDefsFields
+--   call reflect.New(t).Interface
+--   call reflect.New
+--   call t.FieldByName
+--   if ok && f.Type.Kind() == reflect.Slice && f.Type.Elem().Kind() == reflect.Uint8
+--   call f.Type.Kind
+--   call f.Type.Elem().Kind
+--   call f.Type.Elem
+--   return d, nil
+-- resolver / tField.fromDefsField
+--   call uintptr
+--   call newTType
+--   if f.NoCopy && f.Type.WT != tSTRING => panic
+--   call panic
+--   for v.Kind() == reflect.Ptr
+--   call v.Kind
+--   call v.Elem
+--   if !v.IsValid() => return
+--   call v.IsValid
+--   return 
+--   call unsafe.Pointer
+--   call v.UnsafeAddr
+-/
 
 end Frugal.Generated
